@@ -26,6 +26,8 @@ impl OperationControl for EndProgram {
         matcher: &ReMatcher,
         position: usize,
     ) -> Box<dyn Iterator<Item = usize>> {
+        #[cfg(feature = "verif-hooks")]
+        crate::verif::step(crate::verif::site::OP_END_PROGRAM);
         // An anchored match is successful only if we are at the end of the
         // string. Otherwise, match has succeeded unconditionally
         if matcher.anchored_match() {
